@@ -446,7 +446,7 @@ B('F3-bool-guard-dropped', ['C07'], 'util.py', 'resolve_dtype',
   '            or dt1_is_bool or dt2_is_bool\n', '', 'F3', 'resolve_dtype')
 B('F3-str-family-one-sided', ['C07'], 'util.py', 'resolve_dtype',
   'if dt1_is_str and dt2_is_str:', 'if dt1_is_str or dt2_is_str:', 'F3', 'resolve_dtype')
-B('F3-row-dtype-not-widened', ['C07'], 'type_blocks.py', 'TypeBlocks.append',
+B('F3-row-dtype-not-widened', ['C07', 'C16'], 'type_blocks.py', 'TypeBlocks.append',
   'self._row_dtype = DTYPE_OBJECT', 'pass', 'F3', 'TypeBlocks.append')
 B('F3-str-nonstr-not-object', ['C07'], 'util.py', 'prepare_iter_for_array',
   'if has_tuple or has_enum or (has_str and has_non_str):', 'if has_tuple or has_enum:', 'F3', 'prepare_iter_for_array')
@@ -912,3 +912,6 @@ B('D2-automap-after-append', ['C09', 'C02'], 'index.py', '_IndexGOMixin.append',
   'D2.validate-before-mutate', 'append')
 N('D2-automap-built-earlier-renamed', ['C09', 'C02'], 'index.py', '_IndexGOMixin.append',
   '                map_new = AutoMap(self._labels_mutable + [value])\n', '                map_new = AutoMap([*self._labels_mutable, value])\n')
+
+B('F3-row-dtype-kind-compare', ['C07', 'C16'], 'type_blocks.py', 'TypeBlocks.append',
+  'block.dtype != self._row_dtype', 'block.dtype.kind != self._row_dtype.kind', 'F3', 'TypeBlocks.append')
